@@ -304,7 +304,7 @@ def _first_use_slot(top: ast.expr, nm: str, _atom=None):
     _atom = _atom or globals()["_atom"]
     if isinstance(top, ast.Call):
         if is_nm(top.func):
-            return None
+            return lambda v: setattr(top, "func", v)   # the callee is evaluated first
         if isinstance(top.func, ast.Attribute) and is_nm(top.func.value):
             return lambda v: setattr(top.func, "value", v)
         if not _simple(top.func):
@@ -394,6 +394,34 @@ def _single_use_temps(fn):
                     h.body = block(h.body)
             prev = out[-1] if out else None
             if (prev is not None and isinstance(prev, ast.Assign) and len(prev.targets) == 1 and isinstance(prev.targets[0], ast.Name)
+                    and prev.targets[0].id in cands and isinstance(s, ast.If)
+                    and sum(1 for x in ast.walk(s.test) if isinstance(x, ast.Name) and x.id == prev.targets[0].id) == 1):
+                # `t = E` / `if t ...:` -- the temporary is the first thing the test evaluates
+                nm = prev.targets[0].id
+
+                def lm(e):
+                    if isinstance(e, ast.Name) and e.id == nm:
+                        return True, None
+                    if isinstance(e, ast.UnaryOp) and isinstance(e.op, ast.Not):
+                        ok_, st_ = lm(e.operand)
+                        return ok_, (st_ if st_ is not None else (lambda v, e=e: setattr(e, "operand", v))) if ok_ else None
+                    if isinstance(e, ast.BoolOp):
+                        ok_, st_ = lm(e.values[0])
+                        return ok_, (st_ if st_ is not None else (lambda v, e=e: e.values.__setitem__(0, v))) if ok_ else None
+                    if isinstance(e, ast.Compare):
+                        ok_, st_ = lm(e.left)
+                        return ok_, (st_ if st_ is not None else (lambda v, e=e: setattr(e, "left", v))) if ok_ else None
+                    return False, None
+                ok_, st_ = lm(s.test)
+                if ok_:
+                    if st_ is None:
+                        s.test = prev.value
+                    else:
+                        st_(prev.value)
+                    out.pop()
+                out.append(s)
+                continue
+            if (prev is not None and isinstance(prev, ast.Assign) and len(prev.targets) == 1 and isinstance(prev.targets[0], ast.Name)
                     and prev.targets[0].id in cands and isinstance(s, (ast.Assign, ast.Return, ast.Expr)) and s.value is not None
                     and not (isinstance(s, ast.Assign) and not all(_simple(t) for t in s.targets))):
                 nm = prev.targets[0].id
@@ -426,8 +454,9 @@ def _pure_test_expr(e: ast.expr) -> bool:
 
 
 def _bool_aliases(fn):
-    """N11  boolean aliases of a guard: `b = <pure test expression>` directly followed by an if/elif chain, `b` stored once and read only in the
-    tests of that chain (where nothing but the earlier tests has been evaluated since the definition) -> every read is replaced by the expression."""
+    """N11  aliases of a guard: `b = <pure test expression or attribute chain>` directly followed by if statements, `b` stored once and read only
+    in their tests -- the if/elif chain that starts there and the following `if`s while every earlier arm leaves the block -- where nothing but
+    the earlier tests has been evaluated since the definition -> every read is replaced by the expression."""
     stores, loads = {}, {}
     for n in ast.walk(fn):
         if isinstance(n, ast.Name):
@@ -442,6 +471,25 @@ def _bool_aliases(fn):
             out.append(cur)
             cur = cur.orelse[0] if len(cur.orelse) == 1 and isinstance(cur.orelse[0], ast.If) else None
         return out
+
+    def _terminates(body):
+        return bool(body) and isinstance(body[-1], (ast.Return, ast.Raise, ast.Continue, ast.Break))
+
+    def following_tests(stmts, i):
+        """the tests evaluated, with nothing else in between, after statement i: the if/elif chain that starts at i+1, and the chains of the
+        directly following `if` statements as long as every arm before them leaves the block (return / raise / continue / break)"""
+        links = []
+        j = i + 1
+        while j < len(stmts) and isinstance(stmts[j], ast.If):
+            chain = chain_tests(stmts[j])
+            links.extend(chain)
+            last = chain[-1]
+            if not (all(_terminates(l.body) for l in chain) and (not last.orelse or _terminates(last.orelse))):
+                break
+            if last.orelse:
+                break  # every path has left the block
+            j += 1
+        return links
 
     def block(stmts):
         out = []
@@ -458,13 +506,25 @@ def _bool_aliases(fn):
             nxt = stmts[i + 1] if i + 1 < len(stmts) else None
             if (isinstance(s, ast.Assign) and len(s.targets) == 1 and isinstance(s.targets[0], ast.Name) and isinstance(nxt, ast.If)
                     and stores.get(s.targets[0].id) == 1 and s.targets[0].id not in captured and _pure_test_expr(s.value)
-                    and isinstance(s.value, (ast.BoolOp, ast.Compare, ast.Call, ast.UnaryOp))):
+                    and (isinstance(s.value, (ast.BoolOp, ast.Compare, ast.Call, ast.UnaryOp))
+                         or (isinstance(s.value, ast.Attribute) and _simple(s.value)))):
                 nm = s.targets[0].id
-                links = chain_tests(nxt)
+                links = following_tests(stmts, i)
                 in_tests = sum(1 for l in links for x in ast.walk(l.test) if isinstance(x, ast.Name) and x.id == nm)
-                if in_tests and in_tests == loads.get(nm, 0):
-                    import copy as _copy
-
+                # ... and reads that are the first thing an arm of those conditionals evaluates (still nothing but tests has run)
+                arm_slots = []
+                arms = [l.body for l in links] + ([links[-1].orelse] if links and links[-1].orelse else [])
+                for body in arms:
+                    st0 = body[0] if body else None
+                    if isinstance(st0, (ast.Assign, ast.Return, ast.Expr)) and getattr(st0, "value", None) is not None and \
+                            sum(1 for x in ast.walk(st0) if isinstance(x, ast.Name) and x.id == nm) == 1:
+                        if isinstance(st0.value, ast.Name) and st0.value.id == nm:
+                            arm_slots.append(lambda v, st0=st0: setattr(st0, "value", v))
+                        else:
+                            sl = _first_use_slot(st0.value, nm, _simple)
+                            if sl is not None:
+                                arm_slots.append(sl)
+                if in_tests and in_tests + len(arm_slots) == loads.get(nm, 0):
                     class Sub(ast.NodeTransformer):
                         def visit_Name(self, node):
                             if node.id == nm and isinstance(node.ctx, ast.Load):
@@ -472,6 +532,8 @@ def _bool_aliases(fn):
                             return node
                     for l in links:
                         l.test = Sub().visit(l.test)
+                    for sl in arm_slots:
+                        sl(_clone(s.value))
                     i += 1
                     continue
             out.append(s)
@@ -699,6 +761,94 @@ def _loops_to_comprehensions(fn):
     fn.body = block(fn.body)
 
 
+def _projection_aliases(fn):
+    """N22  a local that caches an attribute chain (`out_data = tensor_out.data`, `base = arr.base`): bound exactly once, to `<name>.<a>.<b>...`, where
+    the root name is a parameter or a local bound exactly once *before* it, and no attribute of the chain is ever stored to in this function (by
+    any receiver), nor does the function re-seat attribute dictionaries (mirror_tensor / __dict__ / setattr) -> every read of the local is
+    replaced by the chain.  Side condition stated in DESIGN 11.10: callees of this code base do not rebind an attribute that their caller never
+    stores itself."""
+    stores, loads = {}, {}
+    first_store_line = {}
+    attr_stores = set()
+    for n in ast.walk(fn):
+        if isinstance(n, ast.Name):
+            if isinstance(n.ctx, ast.Load):
+                loads[n.id] = loads.get(n.id, 0) + 1
+            else:
+                stores[n.id] = stores.get(n.id, 0) + 1
+                first_store_line.setdefault(n.id, getattr(n, "lineno", 0))
+        elif isinstance(n, ast.Attribute) and isinstance(n.ctx, (ast.Store, ast.Del)):
+            attr_stores.add(n.attr)
+        elif isinstance(n, ast.Call):
+            f = n.func
+            nm = f.id if isinstance(f, ast.Name) else (f.attr if isinstance(f, ast.Attribute) else "")
+            if nm in ("mirror_tensor", "setattr", "delattr", "__setattr__", "update") and (nm != "update" or "__dict__" in ast.dump(f)):
+                return
+        elif isinstance(n, ast.Attribute) and n.attr == "__dict__" and isinstance(n.ctx, ast.Store):
+            return
+    captured = _captured_names(fn) | _scoped_decls(fn)
+    params = {a.arg for a in fn.args.posonlyargs + fn.args.args + fn.args.kwonlyargs}
+    alias = {}
+    defs = set()
+    for n in ast.walk(fn):
+        if not (isinstance(n, ast.Assign) and len(n.targets) == 1 and isinstance(n.targets[0], ast.Name) and isinstance(n.value, ast.Attribute)):
+            continue
+        nm = n.targets[0].id
+        chain, root = [], n.value
+        while isinstance(root, ast.Attribute):
+            chain.append(root.attr)
+            root = root.value
+        if not isinstance(root, ast.Name) or root.id == nm:
+            continue
+        if stores.get(nm) != 1 or nm in captured or nm in params or loads.get(nm, 0) < 2:
+            continue   # single reads are N7's business
+        if root.id in ("np", "numpy", "self") and root.id != "self":
+            continue
+        root_ok = (root.id in params and stores.get(root.id, 0) == 0) or (stores.get(root.id, 0) == 1 and first_store_line.get(root.id, 1 << 30) < n.lineno
+                                                                           and root.id not in captured)
+        if not root_ok:
+            continue
+        if any(a in attr_stores for a in chain) or any(a.startswith("__") for a in chain):
+            continue
+        alias[nm] = n.value
+        defs.add(id(n))
+    if not alias:
+        return
+
+    class Sub(ast.NodeTransformer):
+        def visit_Name(self, node):
+            if isinstance(node.ctx, ast.Load) and node.id in alias:
+                return ast.copy_location(_clone(alias[node.id]), node)
+            return node
+
+    # an alias of an alias (`base = arr.base` with `arr = t.data`): expand the cached chains themselves first
+    for _ in range(4):
+        changed = False
+        for k in list(alias):
+            if any(isinstance(x, ast.Name) and x.id in alias for x in ast.walk(alias[k])):
+                alias[k] = Sub().visit(_clone(alias[k]))
+                changed = True
+        if not changed:
+            break
+
+    def block(stmts):
+        out = []
+        for s in stmts:
+            if id(s) in defs:
+                continue
+            for f in ("body", "orelse", "finalbody"):
+                v = getattr(s, f, None)
+                if isinstance(v, list) and v and isinstance(v[0], ast.stmt) and not isinstance(s, (ast.FunctionDef, ast.AsyncFunctionDef, ast.ClassDef)):
+                    setattr(s, f, block(v) or [ast.copy_location(ast.Pass(), s)])
+            if isinstance(s, ast.Try):
+                for h in s.handlers:
+                    h.body = block(h.body) or [ast.copy_location(ast.Pass(), h)]
+            out.append(s)
+        return out
+    fn.body = block(fn.body) or [ast.copy_location(ast.Pass(), fn)]
+    fn.body = [Sub().visit(b) for b in fn.body]
+
+
 def _leftmost_walrus(test: ast.expr):
     """(NamedExpr node, setter) if an assignment expression is the very first thing the test evaluates"""
     if isinstance(test, ast.NamedExpr):
@@ -859,6 +1009,17 @@ def _uses_np(tree) -> bool:
     return any(isinstance(n, ast.Name) and n.id == "np" for n in ast.walk(tree))
 
 
+def _map_to_genexp(e):
+    """`map(f, xs)` consumed as an iterable (star-argument, tuple()/list()/set()/any()/all()/sum(), a for loop) is the generator `(f(v) for v in xs)`"""
+    if isinstance(e, ast.Call) and isinstance(e.func, ast.Name) and e.func.id == "map" and len(e.args) == 2 and not e.keywords \
+            and _simple(e.args[0]) and not isinstance(e.args[0], ast.Starred):
+        v = ast.Name(id="_mapped", ctx=ast.Store())
+        return ast.copy_location(ast.GeneratorExp(
+            elt=ast.Call(func=e.args[0], args=[ast.Name(id="_mapped", ctx=ast.Load())], keywords=[]),
+            generators=[ast.comprehension(target=v, iter=e.args[1], ifs=[], is_async=0)]), e)
+    return e
+
+
 class _DropDefaults(ast.NodeTransformer):
     """N9 (defaults) and N14 (equivalent NumPy / builtin spellings): `E.copy(order="K")` -> `np.copy(E)` (only an ndarray's copy takes order=; the
     two are the same function) when the tree uses the `np` alias; `list(<generator expression>)` -> the list comprehension."""
@@ -866,9 +1027,25 @@ class _DropDefaults(ast.NodeTransformer):
     def __init__(self, has_np=True):
         self.has_np = has_np
 
+    def visit_Starred(self, node):
+        self.generic_visit(node)
+        node.value = _map_to_genexp(node.value)   # N21
+        return node
+
+    def visit_For(self, node):
+        self.generic_visit(node)
+        node.iter = _map_to_genexp(node.iter)
+        return node
+
     def visit_Call(self, node):
         self.generic_visit(node)
         f = node.func
+        if isinstance(f, ast.Name) and f.id in ("tuple", "list", "set", "frozenset", "any", "all", "sum", "sorted") and len(node.args) == 1 and not node.keywords:
+            node.args[0] = _map_to_genexp(node.args[0])
+        # N20  typing.cast(T, e) is e
+        if ((isinstance(f, ast.Name) and f.id == "cast") or (isinstance(f, ast.Attribute) and f.attr == "cast" and isinstance(f.value, ast.Name)
+                                                            and f.value.id in ("typing", "t", "tp"))) and len(node.args) == 2 and not node.keywords:
+            return node.args[1]
         if isinstance(f, ast.Name) and f.id == "list" and len(node.args) == 1 and not node.keywords and isinstance(node.args[0], ast.GeneratorExp):
             g = node.args[0]
             return ast.copy_location(ast.ListComp(elt=g.elt, generators=g.generators), node)
@@ -909,6 +1086,8 @@ def renormalise_function(fn: ast.AST):
                 _single_use_temps(n)
             _bool_aliases(n)
             _function_aliases(n)
+            if os.environ.get("SA_NO_N22") != "1":
+                _projection_aliases(n)
     _Normal().visit(fn)
     ast.fix_missing_locations(fn)
 
@@ -929,5 +1108,7 @@ def normalise(tree: ast.AST) -> ast.AST:
                 _single_use_temps(n)
             _bool_aliases(n)
             _function_aliases(n)
+            if os.environ.get("SA_NO_N22") != "1":
+                _projection_aliases(n)
     ast.fix_missing_locations(tree)
     return tree
